@@ -72,6 +72,9 @@ class BoomNoStr(Exception):
 EXC_KINDS = ["Boom", "BoomValue", "BoomKey", "BoomRuntime", "BoomValue-empty", "Assertion-empty", "Boom", "BoomFalsy", "BoomEmptyLen", "BoomNoStr", "LibMissingInput", "LibIncompatibleRunner", "LibGraphConfig", "LibInfiniteLoop"]
 
 
+MAP_KIND_ORDER = ["BoomFalsy", "BoomEmptyLen", "BoomNoStr", "LibMissingInput", "Boom", "LibGraphConfig", "BoomKey", "BoomValue-empty", "LibIncompatibleRunner", "BoomRuntime", "Assertion-empty", "LibInfiniteLoop", "BoomValue"]
+
+
 def make_exc(kind, msg):
     """Exceptions of several classes, some with an EMPTY message (str(e) == '')."""
     if kind == "BoomValue":
@@ -322,7 +325,7 @@ def map_faults(ctx, i):
     consumers = [ns for ns in inner["nodes"] if any(p["n"] == over for p in ns["params"])]
     victim = rng.choice(consumers)
     vfid = victim["fid"]
-    mkind = EXC_KINDS[ctx.obs["map_fault_cases"] % len(EXC_KINDS)]  # every class in turn, not by chance
+    mkind = MAP_KIND_ORDER[ctx.obs["map_fault_cases"] % len(MAP_KIND_ORDER)]  # every class in turn, the unusual ones first
     ctx.obs["map_fault_cases"] += 1
     excs = {it: make_exc(mkind, f"boom on {it}") for it in items}
     case = {"inner": inner, "over": over, "items": items, "bad": sorted(bad_items), "victim": vfid}
@@ -479,9 +482,10 @@ def run(ctx):
     for i in range(n):
         rng = ctx.rng
         r = rng.random()
-        if r < 0.2:
+        if i % 5 == 0:
             map_faults(ctx, i)
             continue
+        r = 0.2 + 0.8 * r
         if r < 0.45:
             spec = gen.gen_gated(rng, deterministic=True)
             inputs = gen.gated_inputs(rng, spec)
